@@ -4,7 +4,8 @@ package circuitbreaker
 
 import "time"
 
-// VfSetNowFunc lets the C08 harnesses of pkg/resilience and pkg/filters/proxy install the virtual
-// clock that this package's own unit tests install through the unexported nowFunc. The file
-// exists only in the build overlay of /verif (never inside /repo).
+// VfSetNowFunc installs the virtual clock of the C08 harnesses. This file is the ONLY place of the
+// whole C08 harness that names an unexported identifier of this package (the clock hook nowFunc,
+// which the package's own unit tests use the same way). It exists only in the build overlay of
+// /verif (never inside /repo). If the hook is renamed, adapt this one line.
 func VfSetNowFunc(f func() time.Time) { nowFunc = f }
